@@ -251,6 +251,40 @@ func rulesC04(e *Engine, r *Report) {
 				"a parked file is entered as validated after another one was already handed to the finalize chain: the one handed over may find its predecessor still `logged` (taken for delivered) and overtake it", res.Evals)
 		}
 	}
+	// ---------------------------------------------------------------- R04.11
+	r.Rule("R04.11", "the order is given up for the cycle only: the file whose predecessor the cleaner clears is the cache entry of the very path the loop was detected for (by R04.5 that path lies on a cycle) - not whatever waits on it: a file that merely follows a member of a cycle keeps its place and is released when that member is delivered")
+	if fn := needFn(e, r, "R04.11", "stage.(*Stage).cleanWaiting"); fn != nil {
+		var starts []string
+		for _, s := range e.SitesOf(pat("stage.(*Stage).detectWaitLoop"), []*ssa.Function{fn}) {
+			starts = append(starts, e.Canon(s.Instr.Common().Args[1]))
+		}
+		n := 0
+		Instrs(fn, func(in ssa.Instruction) {
+			st, ok := in.(*ssa.Store)
+			if !ok {
+				return
+			}
+			fa, ok := st.Addr.(*ssa.FieldAddr)
+			if !ok {
+				return
+			}
+			f := fieldVar(fa.X, fa.Field)
+			if f == nil || f.Name() != "prev" || !strings.HasSuffix(fa.X.Type().String(), "finalFile") {
+				return
+			}
+			n++
+			obj := e.Canon(fa.X)
+			ok = false
+			for _, p := range starts {
+				if obj == "call(stage.(*Stage).fromCache)(p0, "+p+")" {
+					ok = true
+				}
+			}
+			r.Check(ok, "R04.11", "stage.(*Stage).cleanWaiting: the entry released is the one the loop was detected for", e.InstrPos(in),
+				"the cleaner clears the predecessor of `"+shorten(obj)+"`, which is not the cache entry of the path given to detectWaitLoop: files that only wait on a cycle member lose their place with it", 1, "loop detected for: "+strings.Join(starts, ", "))
+		})
+		r.Min("R04.11", "predecessors cleared by the cleaner", n, 1)
+	}
 }
 
 // allocsOf returns the composite-literal allocations of type *T in fn.
